@@ -156,9 +156,37 @@ impl<const SIDE: u8> Drop for El<SIDE> {
         cb_tick(SIDE | 0x40); // destructor panic points are a separate family (see cb_reset)
     }
 }
+thread_local! {
+    /// per-side clone bombs: the n-th clone from now panics (0 = disarmed); used to compare panic paths with std
+    static BOMB: [Cell<u32>; 2] = const { [const { Cell::new(0) }; 2] };
+}
+pub fn arm_clone_bombs(n: u32) {
+    BOMB.with(|b| b.iter().for_each(|c| c.set(n)));
+}
+fn bomb_tick(side: u8) {
+    let fire = BOMB.with(|b| {
+        let c = &b[(side & 1) as usize];
+        match c.get() {
+            0 => false,
+            1 => {
+                c.set(0);
+                true
+            }
+            n => {
+                c.set(n - 1);
+                false
+            }
+        }
+    });
+    if fire {
+        panic!("clone bomb");
+    }
+}
+
 impl<const SIDE: u8> Clone for El<SIDE> {
     fn clone(&self) -> Self {
         let _u = enter_user();
+        bomb_tick(SIDE);
         cb_tick(SIDE);
         El::new(self.val)
     }
